@@ -96,6 +96,8 @@ function transform_entities(entities) {
     SetProperty(c, "` + p + `", "f", 2.5);
     SetProperty(c, "` + p + `", "big", 12345678901);
     SetProperty(c, "` + p + `", "arr", [1, 2, 3]);
+    SetProperty(c, "` + p + `", "lol", [[1, 2], [3]]);
+    SetProperty(c, "` + p + `", "mixed", [1, [2, [3, "x"]], "y"]);
     SetProperty(c, "` + p + `", "name", "n-" + local(GetId(e)));
     AddReference(c, "` + p + `", "from", GetId(e));
     out.push(c);
@@ -148,7 +150,9 @@ func c10Model(kind, p string, e *kit.Ent) []*kit.Ent {
 		return []*kit.Ent{{
 			ID: p + ":c-" + local,
 			Props: map[string]any{p + ":k": float64(7), p + ":f": 2.5, p + ":big": float64(12345678901),
-				p + ":arr": []any{float64(1), float64(2), float64(3)}, p + ":name": "n-" + local},
+				p + ":arr": []any{float64(1), float64(2), float64(3)}, p + ":name": "n-" + local,
+				p + ":lol":   []any{[]any{float64(1), float64(2)}, []any{float64(3)}},
+				p + ":mixed": []any{float64(1), []any{float64(2), []any{float64(3), "x"}}, "y"}},
 			Refs: map[string]any{p + ":from": e.ID},
 		}}
 	}
@@ -478,10 +482,10 @@ func (env *c10Env) exec(c c10Case, fail func(format string, args ...any)) {
 	kit.Journal(c)
 	problem, infra := env.run(c)
 	if infra != "" {
-		fail("VERIF-INFRA %s\ncase %s", infra, c10JSON(c))
+		fail("VERIF-INFRA %s\ncase %s", infra, c17JSON(c))
 	}
 	if problem != "" {
-		fail("C10 violated: %s\nVERIF-CASE-BEGIN\n%s\nVERIF-CASE-END", problem, c10JSON(c))
+		fail("C10 violated: %s\nVERIF-CASE-BEGIN\n%s\nVERIF-CASE-END", problem, c17JSON(c))
 	}
 	kit.JournalDone()
 	jt := "incremental"
@@ -612,4 +616,131 @@ func TestVerifProbe_F08(t *testing.T) {
 			t.Fatalf("F08 present: case %s: %s", c10JSON(c), problem)
 		}
 	}
+}
+
+// ---- a transform that fails for one entity, then is repaired --------------------
+//
+// "Every entity the transform returns reaches the sink" also has a failure side:
+// when the transform throws for an entity, the batch that holds it is not
+// delivered at all (no part of it, whatever worker had it), the run is recorded
+// as failed and the token stays before that batch; after the transform is
+// repaired (the job definition is updated), the next run delivers every source
+// entity exactly once, in source order.
+
+type c10ThrowCase struct {
+	N     int `json:"n"`
+	Batch int `json:"batch"` // 0 = one batch
+	P     int `json:"p"`
+	K     int `json:"throwAt"` // index of the entity the transform throws for
+}
+
+func c10ThrowCode(p string, k int) string {
+	return fmt.Sprintf(`function transform_entities(entities) {
+  for (var i = 0; i < entities.length; i++) {
+    if (GetProperty(entities[i], %q, "i", -1) == %d) { throw new Error("scripted transform failure"); }
+  }
+  return entities;
+}`, p, k)
+}
+
+func (env *c10Env) runThrow(c c10ThrowCase) (problem, infra string) {
+	h := env.h
+	env.seq++
+	p := h.P[0]
+	src, sink, id := fmt.Sprintf("c10tsrc%d", env.seq), fmt.Sprintf("c10tsink%d", env.seq), fmt.Sprintf("c10tjob%d", env.seq)
+	h.createDataset(src)
+	h.createDataset(sink)
+	if err := h.write(src, c10Source(p, 0, c.N)); err != nil {
+		return "", fmt.Sprintf("source write failed: %v", err)
+	}
+	add := func(code string) (*job, string) {
+		jobs, err := h.addJob(vjJobJSON(vjJob{ID: id, Source: vjDatasetSource(src, false), Sink: vjDatasetSink(sink),
+			Transform: vjJSTransform(code, c.P), BatchSize: c.Batch, JobType: JobTypeIncremental}))
+		if err != nil || len(jobs) != 1 {
+			return nil, fmt.Sprintf("scheduler rejected the job: %v", err)
+		}
+		return jobs[0], ""
+	}
+	defer func() { _ = h.Sched.DeleteJob(id) }()
+	j, s := add(c10ThrowCode(p, c.K))
+	if s != "" {
+		return "", s
+	}
+	res, pan := h.runJob(j)
+	if pan != nil {
+		return fmt.Sprintf("run 1: job run panicked: %v", pan), ""
+	}
+	if res == nil {
+		return "run 1: no job result stored", ""
+	}
+	feed, _ := h.changes(src, 0)
+	b := c.Batch
+	if b <= 0 {
+		b = c.N
+	}
+	okPrefix := (c.K / b) * b // entities of the complete batches before the failing one
+	got, _ := h.changes(sink, 0)
+	if res.LastError == "" {
+		return fmt.Sprintf("run 1: the transform threw for entity %d but the run is recorded as successful (sink has %d of %d entities)", c.K, len(got), c.N), ""
+	}
+	if d := c10Diff("run 1 (transform throws for entity "+fmt.Sprint(c.K)+"): sink change feed vs the batches before the failing one", c10Keys(got), c10Keys(feed[:okPrefix])); d != "" {
+		return d, ""
+	}
+	// the transform is repaired
+	j, s = add("function transform_entities(entities) { return entities; }")
+	if s != "" {
+		return "", s
+	}
+	res, pan = h.runJob(j)
+	if pan != nil {
+		return fmt.Sprintf("run 2: job run panicked: %v", pan), ""
+	}
+	if res == nil || res.LastError != "" {
+		return fmt.Sprintf("run 2 (transform repaired): %+v", res), ""
+	}
+	got, _ = h.changes(sink, 0)
+	if d := c10Diff("run 2 (transform repaired): sink change feed vs source change feed", c10Keys(got), c10Keys(feed)); d != "" {
+		return d, ""
+	}
+	if len(h.Runner.raffle.runningJobs) != 0 {
+		return "run slot not released", ""
+	}
+	return "", ""
+}
+
+func TestVerif_C10_throw(t *testing.T) {
+	defer kit.S().Flush()
+	defer kit.CleanupScratch()
+	if os.Getenv("VERIF_REPLAY_CASE") != "" {
+		return
+	}
+	env := newC10Env()
+	defer env.h.close()
+	rapid.Check(t, func(t *rapid.T) {
+		n := rapid.IntRange(1, 60).Draw(t, "n")
+		c := c10ThrowCase{N: n, P: rapid.IntRange(1, 12).Draw(t, "p"), K: rapid.IntRange(0, n-1).Draw(t, "throwAt")}
+		if rapid.Bool().Draw(t, "batched") {
+			c.Batch = rapid.IntRange(1, n+1).Draw(t, "batch")
+		}
+		kit.Journal(c)
+		problem, infra := env.runThrow(c)
+		if infra != "" {
+			t.Fatalf("VERIF-INFRA %s\ncase %s", infra, c17JSON(c))
+		}
+		if problem != "" {
+			t.Fatalf("C10 violated: %s\nVERIF-CASE-BEGIN\n%s\nVERIF-CASE-END", problem, c17JSON(c))
+		}
+		kit.JournalDone()
+		b := c.Batch
+		if b <= 0 {
+			b = n
+		}
+		inBatch := n - (c.K/b)*b
+		if inBatch > b {
+			inBatch = b
+		}
+		// non-trivial: the failing batch is split over >=2 workers and the failing entity is not in the last chunk
+		nt := c.P >= 2 && inBatch >= c.P && (c.K%b) < inBatch*(c.P-1)/c.P
+		kit.S().Case(c, nt, "kind:throw-then-repaired")
+	})
 }
